@@ -18,16 +18,28 @@ TIME_RE = re.compile(r"\b(t|d)=([0-9a-f]+|nan)")
 
 class C15(Property):
     id = "C15"
-    lean_module = "RosuModel.Props.C15"
+    lean_module = "RosuModel.Props.C15Map"   # imports Props/C15.lean; both files are in namespace Rosu.C15
     namespace = "Rosu.C15"
     design_ref = "5.15"
     required_theorems = ["sorted_perm", "sorted_nondecreasing", "sorted_stable", "postProcessBreaks_length", "orNewCombo_only_sets",
                          "skipBreaks_spec", "skipBreaks_stops", "precisionAdjusted_form", "slider_finalized", "applyNodeSamples_length",
-                         "finalizeObjects_times", "apply_default_sample", "apply_file_sample", "clampVolume_range"]
+                         "finalizeObjects_times", "apply_default_sample", "apply_file_sample", "clampVolume_range",
+                         # Props/C15Map.lean
+                         "first_after_break_aux", "first_after_break_new_combo", "pairwise_of_consecutive",
+                         "first_after_break_unconditional_false", "first_after_break_new_combo_decoded",
+                         "apply_idempotent", "apply_fixed_iff", "apply_fixed_of_resolved", "apply_resolves", "apply_absorbs",
+                         "postProcessBreaks_pointwise", "finalizeObject_sim", "finalizeObjects_pointwise", "finalize_perm",
+                         "finalize_length_times"]
     partial_theorems = {
-        "first_after_break_new_combo": "proved as the exact characterisation of the pointer walk (skipBreaks_spec / skipBreaks_stops: it skips precisely the breaks, from the "
-            "current one on in list order, that end before the object, and forces a new combo iff it skipped one); the user-level clause 'the first object after EACH break' "
-            "follows only when the breaks are listed in end-time order and is false otherwise (finding F14), so it is evaluated by the oracle, not stated as a theorem",
+        "first_after_break_new_combo": "proved under the hypothesis that the breaks are listed in non-decreasing end-time order (pairwise ¬ b₂.end < b₁.end; "
+            "pairwise_of_consecutive derives it from the consecutive form) and one order fact about `<` on the values involved (x ≤ y < z → x < z on a set N containing "
+            "all break ends and object starts — for IEEE the non-NaN values; taken as a hypothesis, instantiated on the integer toy scalar): for EVERY break the first "
+            "object after it that is not a hold has new_combo = true, at the level of post_process_breaks and of the decoded HitObjects. Without the order hypothesis "
+            "the clause is false: first_after_break_unconditional_false proves the negation on breaks (7464,8164),(16954,17054),(3902,3902) with an object at 4601 "
+            "(finding F14), so on unordered breaks the clause is evaluated by the oracle and classified as the known finding",
+        "finalize_perm": "the decoded list is related position by position (ObjSim) to the stably sorted parsed list: same start time, same kind and line-level fields, "
+            "new-combo only raised, slider velocity / node samples (same count) and per-sample defaults changed; that the changed values are the documented ones is "
+            "slider_finalized / apply_default_sample, not restated here",
         "shift_invariant": "not proved (needs ordered-group laws for every float operation on times and a shift lemma for the parsers); evaluated on the implementation by "
             "decoding pairs of files whose times differ by a whole number of milliseconds",
         "velocity/duration": "slider_finalized is the closed form as the code evaluates it (IEEE, any Scalar); agreement with the formula as the property words it is checked within 4 ulp by the oracle",
@@ -36,7 +48,10 @@ class C15(Property):
                   "the total_cmp key); break processing only sets new-combo flags and its pointer walk is characterised exactly; a finalised slider stores velocity = 100·SM / "
                   "precision-adjusted beat length with the per-mode clamp of the SV multiplier, duration = spans·dist/velocity, node samples resolved at node time + 5 ms and object "
                   "samples at end + 5 ms; SamplePoint::apply takes volume 0 / unspecified bank / custom index 0 from the point and gives file samples the fixed treatment; start times "
-                  "and object count are untouched. Model tied to the code by the whole-file `dec` differential (all fields by bits); the property is re-derived on the implementation "
+                  "and object count are untouched. Props/C15Map.lean adds the user-level clauses: with breaks listed in end-time order the first non-hold object after EACH break has "
+                  "new_combo = true (and the negation of the unconditional clause on a concrete witness: F14); SamplePoint::apply is idempotent, its fixed points are characterised "
+                  "exactly, and a sample resolved against a point with positive volume / non-zero custom index is a fixed point of every sample point (why decode∘encode∘decode is "
+                  "stable on samples); the decoded object list is position by position the stably sorted parsed list up to new-combo / velocity / sample defaults (finalize_perm). Model tied to the code by the whole-file `dec` differential (all fields by bits); the property is re-derived on the implementation "
                   "from its own pre-finalisation state (harness `c15`) and by decoding time-shifted pairs of files (`decshift`).")
     technique = "Lean 4 proof (mergeSort stability, pointer-walk invariant, closed forms) + whole-file differential + closed-form / shift oracles on the implementation"
     trusted_base = [
